@@ -450,7 +450,24 @@ def _diffuse(ck: Checker, prog: Program):
         ck.violation(P + "R6", q, "result frequency", "the result's frequency vector is not the configured centre frequencies", loc=f.loc(ret))
 
 
+def _every_path_stores(ck: Checker, prog: Program):
+    """Every way through prepare_fft_settings settles the length: a path that returns with the settings untouched keeps a length
+    that was never compared with the records of this call."""
+    from ..pathtable import PathTable as _PT
+    pf_ = prog.func("processing.prepare_fft_settings")
+    sname_ = pf_.params[1]
+    lv_ = [l for l in _PT(prog, pf_.module, sum_loops=True).leaves([st for st in pf_.node.body if not (isinstance(st, ast.Expr) and isinstance(st.value, ast.Constant))]) if l.exit != "raise"]
+    silent_ = [l for l in lv_ if not any(e[0] == "store" and e[1].startswith(f"{sname_}.fft_settings") for e in l.events)]
+    if lv_ and not silent_:
+        ck.ok("C01.R7", pf_.qualname, "every path stores the FFT length", detail=f"{len(lv_)} path(s)")
+    elif silent_:
+        ck.violation("C01.R7", pf_.qualname, "a path keeps the length found in the settings",
+                     f"{len(silent_)} of {len(lv_)} paths return without storing the FFT length (under {[str(c)[:70] for c, _t in silent_[0].conds][:2]}): the length found in the "
+                     f"settings is used unchecked and can be shorter than a record of this call - rfft would silently truncate the window", loc=pf_.loc())
+
+
 def _r7(ck: Checker, prog: Program):
+    _every_path_stores(ck, prog)
     try:
         tab = fftlen.extract(prog)
     except AnalysisError:
